@@ -311,3 +311,12 @@ Proof.
   fold il idxs D bm kept. rewrite n1_enc_disks, n1_enc_maps, n1_prev_part. reflexivity.
 Qed.
 End Rewrite.
+
+(* loading a file written by the tool and saving it again at the same clock gives the same bytes *)
+Theorem rewrite_byte_identical now s : wf s -> 8 <= now ->
+  Forall (fun i => i <> 0 -> fold_left oldest_step (pinfo s) 0 <= info_time i /\ info_time i <= now) (pinfo s) ->
+  exists s', decode (conf_of s) (encode now s) = Ok s' /\ encode now s' = encode now s.
+Proof.
+  intros W Hnow Hu. exists (normalise now s).
+  split; [apply decode_encode_rt; assumption|apply rewrite_reproduces_unclamped; assumption].
+Qed.
